@@ -113,8 +113,8 @@ with ccheck_block (ev : bool) (C : cscopes) (b : block) {struct b} : cscopes * n
   match b with
   | BNil => (C, O)
   | BCons s r =>
-      let '(S1, n1) := ccheck_stmt C s in
-      let '(S2, n2) := ccheck_block S1 r in
+      let '(S1, n1) := ccheck_stmt ev C s in
+      let '(S2, n2) := ccheck_block ev S1 r in
       (S2, (n1 + n2)%nat)
   end
 (* only the final else body is visited: elif branches are skipped *)
